@@ -52,7 +52,10 @@ the library crashed / read out of bounds under ASan.  Documents (version 1.1):
 
 ### What remains a hypothesis (named, in the statements)
 * `SchemaWorldFacts` — facts the parser leaves to the schema validator: `coordinates` has `minItems 1` (plume: `coordinates[0]`), and the
-  `ridge coordinates` of oceanic temperature models list at least one ridge, no ridge empty (`minItems 1`, `minItems 2`);
+  `ridge coordinates` of oceanic temperature models list at least one ridge, no ridge empty (`minItems 1`, `minItems 2`); the same for the
+  slab temperature models, whose `subducting velocity` rows are non-empty too (`SchemaLineTemps`);
+* `SplineCmp` — only for worlds with a `mass conserving` model whose `apply spline` is on: the scalar type has no NaN (`CmpTotal`); the
+  spline table is indexed in range otherwise, but the library can hand `interpolation::operator()` a NaN (see `C12_parse_line_wellformed`);
 * `AuxOk` — depth surfaces given at points use the dumped triangulation / kd-tree (`SurfaceAux`, an *input* of the model produced by the
   library's own `delaunator` / `KDTree::create_tree`): the tree is non-empty and its nodes point at dumped triangles.  `Surface.build` checks
   the triangle vertices against the model's own nodes but cannot re-derive the tree.
@@ -167,29 +170,51 @@ theorem C12_bezier_build_wellformed (pts : List (P2 R)) (bz : Bezier R) (h : Bez
 /-- non-vacuity of `C12_bezier_build_wellformed`: two points build (every scalar type) -/
 example : ∃ bz, Bezier.build ([⟨0, 0⟩, ⟨0, 1⟩] : List (P2 R)) = .ok bz := ⟨_, rfl⟩
 
-/-- **C12** a slab / fault accepted by the parser is well-formed, up to its `mass conserving` temperature models: `parse_entries` of
-that model does not establish `MassConserving.WellFormed` (one migration time per ridge when the subducting velocities are per point;
-nothing about the spline index), so that part is a hypothesis (`f.TempsWellFormed`; it holds trivially of a feature without the model) -/
+/-- **C12** a slab / fault accepted by the parser is well-formed.  Hypotheses: the schema facts about its slab temperature models
+(`SchemaLineTemps`: ridge lists and subducting-velocity rows are non-empty, what the schema validator guarantees), and — only if some
+`mass conserving` model has `apply spline` on — that the scalar type has no NaN (`f.SplineCmp`): the table of the monotone spline is
+always indexed in range, but `interpolation::operator()` converts a NaN argument with `static_cast<int>`, and the library can produce one
+(`number of points in spline: 0` with `max distance slab top: 0` gives `(−∞+1)/∞`).  Everything else `MassConserving.WellFormed` asks
+(row dimensions, one migration time per ridge) is established by `parse_entries`. -/
 theorem C12_parse_line_wellformed (ctx : Ctx R) (isFault : Bool) (c : Cur) (tags tags' : List String) (cull : Bool)
-    (f : LineFeature R) (h : parseLine ctx isFault c tags cull = .ok (f, tags')) (ht : f.TempsWellFormed) : f.WellFormed :=
-  parseLine_post ctx isFault c tags cull (f, tags') h ht
+    (f : LineFeature R) (h : parseLine ctx isFault c tags cull = .ok (f, tags')) (hschema : SchemaLineTemps c) (hnan : f.SplineCmp) :
+    f.WellFormed :=
+  parseLine_post ctx isFault c tags cull (f, tags') h hschema hnan
 
-/-- a feature none of whose segments carries a slab-only temperature model satisfies the hypothesis of `C12_parse_line_wellformed` -/
-theorem C12_temps_wellformed_of_basic (f : LineFeature R)
-    (hb : ∀ sec ∈ f.sections, ∀ s ∈ sec, ∀ m ∈ s.temps, ∃ b, m = SegTemp.basic b) : f.TempsWellFormed := by
+/-- over a scalar type without NaN (every ordered field, `Proofs/SlabTemp.lean: cmpTotal_field`) the NaN hypothesis holds of every feature -/
+theorem C12_splineCmp_of_cmpTotal (hc : CmpTotal R) (f : LineFeature R) : f.SplineCmp := by
+  intro sec _ s _ m _
+  cases m with
+  | basic b => trivial
+  | slab sl =>
+    cases sl with
+    | plateModel p => trivial
+    | massConserving mc => exact fun _ => hc
+
+/-- … and over any scalar type of a feature none of whose `mass conserving` models has the spline on -/
+theorem C12_splineCmp_of_no_spline (f : LineFeature R)
+    (hb : ∀ sec ∈ f.sections, ∀ s ∈ sec, ∀ m ∈ s.temps, ∀ mc, m = SegTemp.slab (.massConserving mc) → mc.applySpline = false) :
+    f.SplineCmp := by
   intro sec hsec s hs m hm
-  obtain ⟨b, rfl⟩ := hb sec hsec s hs m hm
-  trivial
+  cases m with
+  | basic b => trivial
+  | slab sl =>
+    cases sl with
+    | plateModel p => trivial
+    | massConserving mc =>
+      intro hon
+      rw [hb sec hsec s hs _ hm mc rfl] at hon
+      cases hon
 
 /-- **C12** with C13: queries on a parsed slab / fault never index out of range -/
 theorem C12_parsed_line_safe (ctx : Ctx R) (isFault : Bool) (c : Cur) (tags tags' : List String) (cull : Bool)
-    (f : LineFeature R) (h : parseLine ctx isFault c tags cull = .ok (f, tags')) (ht : f.TempsWellFormed) (qctx : Ctx R) (q : Query R)
-    (hq : q.worldT () ≠ .error .internal) :
+    (f : LineFeature R) (h : parseLine ctx isFault c tags cull = .ok (f, tags')) (hschema : SchemaLineTemps c) (hnan : f.SplineCmp)
+    (qctx : Ctx R) (q : Query R) (hq : q.worldT () ≠ .error .internal) :
     f.covers qctx q ≠ .error .internal ∧
       (∀ (ps : List Req) (bs : List (List R)), Fits ps bs → ∀ g : G,
         f.apply qctx q (ps.zip (entries ps)) bs.flatten g ≠ .error .internal) ∧
       f.distanceToPlane qctx q ≠ .error .internal := by
-  have hw := C12_parse_line_wellformed ctx isFault c tags tags' cull f h ht
+  have hw := C12_parse_line_wellformed ctx isFault c tags tags' cull f h hschema hnan
   exact ⟨(f.covers_safe hw qctx q).noInt, fun ps bs hfit g => (Feature.line f).apply_noInt hw qctx q hq ps bs hfit g,
     f.distanceToPlane_noInt hw qctx q⟩
 
@@ -268,18 +293,18 @@ example : (∃ r, parseArea (R := R) c12Ctx 0 "continental plate" ⟨c12AreaDoc,
 /-- **C12** every feature of a world accepted by `parseWorld` is well-formed -/
 theorem C12_parse_world_wellformed (decl : Json) (version : String) (doc : Json) (cull : Bool) (st st' : List (SurfaceAux R))
     (p : Parsed R) (h : parseWorld decl version doc cull st = .ok (p, st')) (haux : AuxOk st) (hschema : SchemaWorldFacts decl doc)
-    (ht : p.world.TempsWellFormed) :
+    (hnan : p.world.SplineCmp) :
     p.world.WellFormed :=
-  (parseWorld_post decl version doc cull st p st' haux h).1 hschema ht
+  (parseWorld_post decl version doc cull st p st' haux h).1 hschema hnan
 
 /-- **C12 + C13** no query on a successfully constructed world indexes out of range -/
 theorem C12_constructed_world_safe (decl : Json) (version : String) (doc : Json) (cull : Bool) (st st' : List (SurfaceAux R))
     (p : Parsed R) (h : parseWorld decl version doc cull st = .ok (p, st')) (haux : AuxOk st) (hschema : SchemaWorldFacts decl doc)
-    (ht : p.world.TempsWellFormed) (depth : R) (ps : List Req) (g : G) :
+    (hnan : p.world.SplineCmp) (depth : R) (ps : List Req) (g : G) :
     (∀ pt : P3 R, p.world.props3 pt depth ps g ≠ .error .internal) ∧
     (∀ pt : P2 R, p.world.props2 pt depth ps g ≠ .error .internal) ∧
     (∀ (pt : P3 R) (name : String), p.world.distanceToPlane pt depth name ≠ .error .internal) :=
-  C13_world_no_internal p.world (C12_parse_world_wellformed decl version doc cull st st' p h haux hschema ht) depth ps g
+  C13_world_no_internal p.world (C12_parse_world_wellformed decl version doc cull st st' p h haux hschema hnan) depth ps g
 
 /-! #### a concrete world -/
 
@@ -325,7 +350,7 @@ example : (∃ r, parseWorld (R := R) c12Decl "1.1" c12WorldDoc true [] = .ok r)
   cases hl
   simp only [List.mem_cons, List.not_mem_nil, or_false] at hmem
   rcases hmem with rfl | rfl
-  · refine ⟨fun a ha => ?_, fun l hl => ?_⟩
+  · refine ⟨fun a ha => ?_, fun l hl => ?_, ?_⟩
     · have : Cur.val? ⟨c12GoodPlumeDoc, c12AltProps "plume" c12PlumeSchema⟩ "coordinates" = some (Json.arr #[Json.arr #[c12Num 0, c12Num 0]]) := rfl
       rw [this] at ha
       cases ha
@@ -334,7 +359,12 @@ example : (∃ r, parseWorld (R := R) c12Decl "1.1" c12WorldDoc true [] = .ok r)
       rw [this] at hl
       cases hl
       intro mc h; cases h
-  · refine ⟨fun a ha => ?_, fun l hl => ?_⟩
+    · refine ⟨fun segSchema hs => ?_, fun v arr s2 hv => ?_⟩
+      · have : schemaAt (c12AltProps "plume" c12PlumeSchema) ["segments", "items", "properties"] = .error .internal := rfl
+        rw [this] at hs; cases hs
+      · have : Cur.val? ⟨c12GoodPlumeDoc, c12AltProps "plume" c12PlumeSchema⟩ "sections" = none := rfl
+        rw [this] at hv; cases hv
+  · refine ⟨fun a ha => ?_, fun l hl => ?_, ?_⟩
     · have : Cur.val? ⟨c12GoodFaultDoc, c12AltProps "fault" c12FaultSchema⟩ "coordinates" =
           some (Json.arr #[Json.arr #[c12Num 0, c12Num 0], Json.arr #[c12Num 0, c12Num 1]]) := rfl
       rw [this] at ha
@@ -344,5 +374,21 @@ example : (∃ r, parseWorld (R := R) c12Decl "1.1" c12WorldDoc true [] = .ok r)
       rw [this] at hl
       cases hl
       intro mc h; cases h
+    · refine ⟨fun segSchema hs v a hv ha sj hsj l hl => ?_, fun v arr s2 hv => ?_⟩
+      · have e1 : schemaAt (c12AltProps "fault" c12FaultSchema) ["segments", "items", "properties"] = .ok (Json.mkObj []) := rfl
+        rw [e1] at hs; cases hs
+        have e2 : (c12GoodFaultDoc.getObjVal? "segments").toOption =
+            some (Json.arr #[Json.mkObj [("length", c12Num 1), ("thickness", Json.arr #[c12Num 1]), ("angle", Json.arr #[c12Num 90])]]) := rfl
+        rw [e2] at hv; cases hv
+        simp only [jarr, Except.ok.injEq] at ha
+        subst ha
+        simp only [List.mem_cons, List.not_mem_nil, or_false] at hsj
+        subst hsj
+        have e3 : resolveModels ⟨Json.mkObj [("length", c12Num 1), ("thickness", Json.arr #[c12Num 1]), ("angle", Json.arr #[c12Num 90])],
+            Json.mkObj []⟩ [c12GoodFaultDoc] "temperature models" = .ok [] := rfl
+        rw [e3] at hl; cases hl
+        intro mc h; cases h
+      · have : Cur.val? ⟨c12GoodFaultDoc, c12AltProps "fault" c12FaultSchema⟩ "sections" = none := rfl
+        rw [this] at hv; cases hv
 
 end Gwb
